@@ -627,3 +627,143 @@ func TestC04Content(t *testing.T) {
 	st := hx.NewStats("C04", "content")
 	hx.RunProp(t, st, genC04Content, runC04Content, hx.PropOpts{WriteAhead: true})
 }
+
+// ---- C04 descriptors: the server under a small descriptor limit ----------------------------------------------------
+//
+// The real binary runs under `ulimit -n`. Neither one client reading the image of a tree with more files than that,
+// nor more idle connections than that, may make it exit, stop accepting, or fail reads of other clients: once the
+// pressure is gone (and, for the image reader, all the time) a new client is served.
+
+type c04FDCase struct {
+	Scenario string `json:"scenario"` // image-reader | idle-storm | both
+	NoFile   int    `json:"nofile"`
+	Files    int    `json:"files"`
+	Idle     int    `json:"idle"`
+	Chunk    int    `json:"chunk"`
+}
+
+func runC04FD(c c04FDCase, st *hx.Stats) error {
+	root, err := hx.Scratch("c04fd")
+	if err != nil {
+		return err
+	}
+	defer os.RemoveAll(root)
+	game := hx.Dir("GAME")
+	for i := 0; i < c.Files; i++ {
+		d := game
+		if i%50 == 49 {
+			d = hx.Dir(fmt.Sprintf("D%03d", i))
+			game.Children = append(game.Children, d)
+		}
+		d.Children = append(d.Children, hx.File(fmt.Sprintf("F%04d.BIN", i), int64(1+i%3), uint64(500+i)))
+	}
+	if err := hx.Materialize(root, hx.Dir("", game, hx.File("small.txt", 100, 8))); err != nil {
+		return err
+	}
+	b, err := hx.StartServerBinLimits(root, nil, nil, root, 0, c.NoFile)
+	if err != nil {
+		return err
+	}
+	defer b.Kill()
+	probe := func(when string) error {
+		if err := c04Probe(b.Addr); err != nil {
+			crashed, what := b.Crashed()
+			return hx.Failf("keeps-serving", "%s (ulimit -n %d): %v (exited=%v crashed=%v %s) %s", when, c.NoFile, err, b.Exited(), crashed, what, head(b.Stderr(), 1200))
+		}
+		return nil
+	}
+	if c.Scenario == "image-reader" || c.Scenario == "both" {
+		conn, err := hx.Dial(b.Addr)
+		if err != nil {
+			return err
+		}
+		defer conn.Close()
+		if err := conn.Send(hx.Req{Op: "OPEN_FILE", Path: "/***DVD***/GAME"}.Encode()); err != nil {
+			return err
+		}
+		rep, closed, err := conn.ReadN(16)
+		if err != nil {
+			return err
+		}
+		if closed {
+			return hx.Failf("reply-layout", "OPEN_FILE of the image of %d files ended the connection", c.Files)
+		}
+		var size int64
+		for _, x := range rep[:8] {
+			size = size<<8 | int64(x)
+		}
+		if size <= 0 {
+			return hx.Failf("image-creation", "image of a tree of %d small files refused (size %d) under ulimit -n %d", c.Files, size, c.NoFile)
+		}
+		for off := int64(0); off < size; off += int64(c.Chunk) {
+			n := int64(c.Chunk)
+			if n > size-off {
+				n = size - off
+			}
+			if err := conn.Send(hx.Req{Op: "READ_CRIT", N: uint32(n), Off: uint64(off)}.Encode()); err != nil {
+				return hx.Failf("transport", "send: %v", err)
+			}
+			got, closed, err := conn.ReadN(int(n))
+			if err != nil {
+				return err
+			}
+			if closed {
+				return hx.Failf("read-progress", "sequential read of the image of %d files (ulimit -n %d) ended at %d of %d bytes: %s", c.Files, c.NoFile, off+int64(len(got)), size, head(b.Stderr(), 600))
+			}
+		}
+		// the reader stays connected with its image open: others must still be served
+		for i := 0; i < 5; i++ {
+			if err := probe(fmt.Sprintf("while one client holds the fully read image of %d files open, new client #%d", c.Files, i)); err != nil {
+				return err
+			}
+		}
+	}
+	if c.Scenario == "idle-storm" || c.Scenario == "both" {
+		var idle []*hx.Conn
+		for i := 0; i < c.Idle; i++ {
+			cn, err := hx.Dial(b.Addr)
+			if err != nil {
+				break // the backlog is full: fine, the point is what the server does
+			}
+			idle = append(idle, cn)
+		}
+		time.Sleep(300 * time.Millisecond)
+		if b.Exited() {
+			return hx.Failf("server-survives", "%d idle connections under ulimit -n %d: the server process exited: %s", len(idle), c.NoFile, head(b.Stderr(), 1200))
+		}
+		for _, cn := range idle {
+			cn.Close()
+		}
+		time.Sleep(200 * time.Millisecond)
+		if err := probe(fmt.Sprintf("after %d idle connections came and went", len(idle))); err != nil {
+			return err
+		}
+	}
+	if b.Exited() {
+		return hx.Failf("server-survives", "the server process exited: %s", head(b.Stderr(), 1200))
+	}
+	st.Label("scenario="+c.Scenario, fmt.Sprintf("ulimit -n %d", c.NoFile))
+	st.NT(fmt.Sprintf("%s|%d|%d|%d|%d", c.Scenario, c.NoFile, c.Files, c.Idle, c.Chunk))
+	st.Sample(c)
+	return nil
+}
+
+func TestC04Descriptors(t *testing.T) {
+	st := hx.NewStats("C04", "descriptors")
+	st.MarkExhaustive("real binary under ulimit -n {64, 256}: one client reads the whole image of a tree with 3x as many files (chunks 2 KiB / 64 KiB) and stays connected; 2x as many idle connections as descriptors come and go; both")
+	cases := func(yield func(c04FDCase) bool) {
+		for _, nf := range []int{64, 256} {
+			for _, sc := range []string{"image-reader", "idle-storm", "both"} {
+				for _, chunk := range []int{2048, 65536} {
+					if sc == "idle-storm" && chunk != 2048 {
+						continue
+					}
+					if !yield(c04FDCase{Scenario: sc, NoFile: nf, Files: 3 * nf, Idle: 2 * nf, Chunk: chunk}) {
+						return
+					}
+				}
+			}
+		}
+	}
+	hx.RunCases(t, st, cases, runC04FD, hx.PropOpts{})
+}
